@@ -68,7 +68,10 @@ func walGen(r *rand.Rand, thorough bool) walCase {
 			if r.Intn(4) < syncBias+1 && syncBias > 0 {
 				kind = "sync"
 			}
-			size := pick(r, 0, 1, 5, 8, 20, 50, 100, 300, 1500)
+			size := pick(r, 0, 1, 5, 8, 20, 50, 100, 127, 128, 129, 300, 1500)
+			if r.Intn(25) == 0 {
+				size = pick(r, 16383, 16384, 16385, 65535, 65536)
+			}
 			if r.Intn(8) == 0 {
 				size = int(c.MaxFileSize) + r.Intn(20) // larger than the file limit
 			}
